@@ -888,7 +888,7 @@ class Executor:
         if k == 'goto':
             return self.jump(st, frame, t.data['target'])
         if k == 'return':
-            return self.do_return(st, frame)
+            return self.do_return(st, frame, work)
         if k == 'unreachable':
             return Panic('reached MIR `unreachable` terminator in ' + frame.func.name, 'panic')
         if k == 'resume':
@@ -989,12 +989,19 @@ class Executor:
             return self.dispatch(st, frame, fn, argv, t.data['dest'], t.data['target'], work)
         raise Unsupported(k)
 
-    def do_return(self, st, frame):
+    def do_return(self, st, frame, work=None):
         rv = frame.locals[0].value
         rv = Unit() if rv is None else rv
         st.frames.pop()
         if frame.post is not None:
             rv = self.apply_post(st, frame.post, rv)
+            if isinstance(rv, tuple) and rv and rv[0] == 'REDISPATCH':
+                # the summary that issued the call continues as another summary (which may fork): e.g. an iterator adaptor looking at
+                # what its closure returned
+                _, name, rargs = rv
+                if work is None or not st.frames:
+                    raise Unsupported('re-dispatch from a top-level frame')
+                return self.dispatch_named(st, st.frames[-1], name, {}, rargs, frame.dest, frame.target, work)
             if isinstance(rv, tuple) and rv and rv[0] == 'CALL':
                 # continuation: the summary that issued the call wants another call (iterator adaptors calling a closure per element)
                 _, callee, cargs, post = rv
